@@ -296,6 +296,66 @@ example : (match (applyUpdate 4 [] (.dict [("A", .dict [("_delete", .list [.str 
 
 /-! ## `_divide`, `_move` -/
 
+/-- what `Store.move` reports for a moved subtree `src` arriving at `dst`: every process below it
+at its new path (processes, steps with their flow, topologies) and the old place as deletion -/
+def movedReport (src : Tree) (dst old : Path) : Report :=
+  let procs := depthProcs [] src
+  { topology := procs.map fun pa => (pathVal (dst ++ pa.1), pa.2.topology),
+    processes := (procs.filter fun pa => !pa.2.value.procIsStep).map
+      fun pa => (pathVal (dst ++ pa.1), pa.2.value),
+    steps := (procs.filter fun pa => pa.2.value.procIsStep).map
+      fun pa => (pathVal (dst ++ pa.1), pa.2.value),
+    flow := (procs.filter fun pa => pa.2.value.procIsStep).map
+      fun pa => (pathVal (dst ++ pa.1), pa.2.flow),
+    deletions := [pathVal old], viewExpire := true }
+
+/-- **`_move`, exactly** (no `update`, a single source key, no collision at the target): with the
+target port of the issuing process wired to `rel`, leading to the existing node `tgt` that does not
+yet hold the key, the move assigns `tgt.inner[k]` the *identical* subtree that was at
+`here ++ [k]` — values, processes, topologies and flows, hence the relative wiring, untouched —
+then removes the source; it writes nowhere else, and it reports every process of the subtree at
+its new path and the old path as deletion. -/
+theorem move_exact (rec : Path → Val → Option Path → FM (Option Report)) (here : Path)
+    (k port : String) (pp : Path) (pname : String) (rel tgt : Path) (t src pn tn : Tree) (tp : KVs)
+    (hk : k ≠ "..")
+    (hsrc : t.get (here ++ [k]) = some src)
+    (hps : t.get (pp ++ [pname]) = some pn) (htopo : pn.attrs.topology = .dict tp)
+    (hport : KV.lookup port tp = some (pathVal rel))
+    (hwalk : walkT t pp rel = .ok tgt) (htn : t.get tgt = some tn)
+    (hcfg : applyConfig tn (.dict []) = .ok tn)
+    (hcol : collides (getValue tn) k = .ok false) :
+    ∃ t2,
+      (storeMove rec here (.dict [("source", .str k), ("target", .str port)]) (some (pp ++ [pname]))).run t
+        = .ok (movedReport src (tgt ++ [k]) (here ++ [k]), t2.eraseAt (here ++ [k]),
+               [tgt, tgt ++ [k], here ++ [k]]) ∧
+      t.setAt (tgt ++ [k]) src = some t2 ∧ t2.get (tgt ++ [k]) = some src := by
+  obtain ⟨t2, h2, g2⟩ := Tree.setAt_child t tgt k src tn htn
+  have e2 : t2.get (tgt ++ [k]) = some src := Tree.get_setAt_self _ _ _ _ h2
+  have hw1 : walkT t here [k] = .ok (here ++ [k]) := by simp [walkT, hk, hsrc]
+  have hm := run_modify tgt (fun n => applyConfig n (.dict [])) t t tn tn htn hcfg (Tree.setAt_get_self t tgt tn htn)
+  have hw0 : walkT t2 here [] = .ok here := rfl
+  refine ⟨t2, ?_, h2, e2⟩
+  simp [storeMove, getKey, KV.lookup, getPath, hw1, run_node, hps, htopo, hport, valPath_pathVal,
+    hwalk, hsrc, establishCfg, establishCfgOpt, establishPath, hm, htn, hcol, run_setAt, h2, hw0, movedReport]
+
+private def procP : Val :=
+  .dict [("__proc__", .str "P"), ("is_step", .bool false), ("schema", .dict [("p0", .dict [])])]
+private def mvTree : Tree :=
+  .node {} [("P", .node { value := procP, leaf := true, updater := .str "set", divider := .str "_default",
+                          topology := .dict [("p0", .list [.str "B"])] } []),
+            ("A", .node {} [("k", .node {} [("x", .node { value := .int 1, leaf := true,
+                                                          updater := .str "_default", divider := .str "_default" } [])]),
+                            ("j", .node { value := .int 2 } [])]),
+            ("B", .node {} [("b", .node { value := .int 0 } [])])]
+
+/-- non-vacuity, through the whole `apply_update`: the process `P` (port `p0` wired to `B`) moves
+`A/k` to `B/k`; `A` keeps `j`, `B` gains `k` after `b`, the content `x` arrives, one deletion -/
+example : (match (applyUpdate 4 [] (.dict [("A", .dict [("_move", .list [.dict [("source", .str "k"),
+      ("target", .str "p0")]])])]) (some ["P"])).run mvTree with
+    | .ok r => (r.2.1.keysAt ["A"], r.2.1.keysAt ["B"], r.2.1.keysAt ["B", "k"],
+                r.1.map (fun rep => rep.deletions.length))
+    | .error _ => (none, none, none, none)) = (some ["j"], some ["b", "k"], some ["x"], some 1) := by decide
+
 /-- a computation whose last write is `del parent.inner[k]` at `p` and whose result satisfies `Q` -/
 private def EndsErasing {α} (p : Path) (Q : α → Prop) (m : FM α) : Prop :=
   ∀ t a t' log, m.run t = .ok (a, t', log) → (∃ t1 : Tree, t' = t1.eraseAt p) ∧ Q a
